@@ -430,7 +430,18 @@ def error_check_covers_all(ctx, fi, rule='SIB'):
              and (dotted(c.func) or '').split('.')[-1] in ('trs_is_error', 'is_error')]
     construct = f"{fi.qualname}: the error check covers Twp, Rge and Sec"
     if not calls:
-        ctx.undecided(rule, construct, 'no trs_is_error() call found')
+        staged = [n for n in walk_local(fi.node) if isinstance(n, ast.comprehension) and 'tract_components' in norm(n.iter)]
+        staged += [n for n in walk_local(fi.node) if isinstance(n, ast.For) and 'tract_components' in norm(n.iter)]
+        uses_err = any(isinstance(x, ast.Attribute) and x.attr.startswith('_ERR_') for x in ast.walk(fi.node))
+        if staged and uses_err:
+            ctx.violation(rule, construct,
+                          f"{fi.qualname} compares the STAGED components with the error placeholders instead of asking each Tract "
+                          f"(`trs_is_error()`): the TRS is built from the components afterwards, and components that look fine "
+                          f"can still give the error TRS (a 3-digit section: 'Sec 114' -> XXXzXXXzXX), which then raises no "
+                          f"error flag and leaves desc_is_flawed False", key=f"{rule}|{fi.qualname}|error-check|staged",
+                          where=fi.loc)
+        else:
+            ctx.undecided(rule, construct, 'no trs_is_error() call found')
         return
     for c in calls:
         off = [k.arg for k in c.keywords if k.arg and isinstance(k.value, ast.Constant) and k.value.value is False]
@@ -1166,4 +1177,97 @@ def total_lookups(ctx, funcs, rule='EXC'):
                            f"{missing[0][1]!r}; `{node.value.id}` has only {sorted(table)[:8]}: KeyError escapes from the parse "
                            f"({len(missing)} of {len(words)} enumerated texts fail)") if missing else '',
                           key=f"{rule}|{fi.qualname}|lookup|{node.value.id}", where=loc(fi, node))
+    return n
+
+
+def dedup_idioms(ctx, funcs, rule='SINK', exempt=('duplicates', 'unique', 'dedup')):
+    """`list(dict.fromkeys(xs))`, `list(set(xs))`, `sorted(set(xs))` used to
+    BUILD a result drop repeated entries.  The parse path keeps repetitions
+    (a section or lot named twice gives two entries and a dup_* flag); only
+    the duplicate filters may collapse them."""
+    n = 0
+    for fi in funcs:
+        if any(w in fi.qualname.lower() for w in exempt) or any(w in p_.lower() for p_ in fi.params() for w in exempt):
+            continue
+        for c in walk_local(fi.node):
+            if not (isinstance(c, ast.Call) and dotted(c.func) in ('list', 'sorted', 'tuple') and len(c.args) == 1
+                    and isinstance(c.args[0], ast.Call)):
+                continue
+            inner = c.args[0]
+            nm = dotted(inner.func)
+            if nm not in ('dict.fromkeys', 'set', 'frozenset') or not inner.args:
+                continue
+            n += 1
+            ctx.violation(rule, f"{fi.qualname}: repeated entries are kept (`{norm(c)[:50]}`)",
+                          f"`{norm(c)[:60]}` collapses entries that occur more than once: a section / lot that the text names "
+                          f"twice no longer gives two entries (and the unpacker, the multisec / dup flags and the tract list "
+                          f"disagree about how many there are)", key=f"{rule}|{fi.qualname}|dedup-idiom",
+                          where=loc(fi, c))
+    return n
+
+
+def prefilters(ctx, funcs, rule='DEFUSE'):
+    """A cheap test `'(' in txt` in front of a regex search is a sound
+    shortcut only if EVERY text the regex can match contains that substring.
+    Members of the regex's language are enumerated from the pattern; one that
+    lacks the substring is a text the shortcut wrongly skips."""
+    from .. import rx
+    from .forward import resolve
+    n = 0
+    for fi in funcs:
+        flags = {}      # name -> (const, subject name, polarity)
+        direct = []
+        for st in walk_local(fi.node):
+            cmp_ = None
+            if isinstance(st, ast.Assign) and len(st.targets) == 1 and isinstance(st.targets[0], ast.Name) \
+                    and isinstance(st.value, ast.Compare):
+                cmp_ = st.value
+            if cmp_ is not None and len(cmp_.ops) == 1 and isinstance(cmp_.ops[0], (ast.In, ast.NotIn)) \
+                    and isinstance(cmp_.left, ast.Constant) and isinstance(cmp_.left.value, str) and cmp_.left.value \
+                    and isinstance(cmp_.comparators[0], ast.Name):
+                flags[st.targets[0].id] = (cmp_.left.value, cmp_.comparators[0].id, isinstance(cmp_.ops[0], ast.In))
+        for node in walk_local(fi.node):
+            if not isinstance(node, ast.If):
+                continue
+            gate = None
+            for _e, txt, pol in literals([(node.test, True)]):
+                if txt in flags and pol == flags[txt][2]:
+                    gate = flags[txt]
+                elif isinstance(_e, ast.Compare) and isinstance(_e.ops[0], ast.In) and pol \
+                        and isinstance(_e.left, ast.Constant) and isinstance(_e.left.value, str) and _e.left.value \
+                        and isinstance(_e.comparators[0], ast.Name):
+                    gate = (_e.left.value, _e.comparators[0].id, True)
+            if gate is None:
+                continue
+            const = gate[0]
+            # regexes searched (directly or in a callee) under the gate
+            searched = []
+            for c in [x for b in node.body for x in ast.walk(b) if isinstance(x, ast.Call)]:
+                holders = [(fi, c)]
+                r = resolve(ctx, fi, c)
+                if r:
+                    holders += [(r[0], x) for x in walk_local(r[0].node) if isinstance(x, ast.Call)]
+                for hf, hc in holders:
+                    if isinstance(hc.func, ast.Attribute) and hc.func.attr in ('search', 'match', 'fullmatch', 'finditer', 'findall'):
+                        try:
+                            v = fold_in_func(ctx, hf, hc.func.value)
+                        except AnalysisError:
+                            v = None
+                        if v is not None and hasattr(v, 'pattern'):
+                            searched.append(v)
+            for rv in searched:
+                n += 1
+                try:
+                    words = rx.enumerate_words(rx.parse(rv.pattern, rv.flags), rv.flags)
+                except AnalysisError as e:
+                    ctx.undecided(rule, f"{fi.qualname}: `{const!r} in {gate[1]}` is implied by every match of {rv.name}",
+                                  f"language not enumerated ({e})")
+                    continue
+                lacking = [w for w in words if const.lower() not in w.lower()]
+                ctx.check(not lacking, rule, f"{fi.qualname}: `{const!r} in {gate[1]}` is implied by every match of {rv.name}",
+                          f"{len(words)} enumerated members contain it",
+                          f"{rv.name} also matches {lacking[0]!r}, which does not contain {const!r}: the shortcut skips the search "
+                          f"for such text, so what the regex would have found (an acreage written in the other bracket "
+                          f"style, ...) is silently lost" if lacking else '',
+                          key=f"{rule}|{fi.qualname}|prefilter|{const}|{rv.name}", where=loc(fi, node))
     return n
